@@ -284,6 +284,17 @@ func VerifC02Step() {
 func VerifC02Params() {
 	n := zzverif.Param("n")
 	p := verifNewParser("")
+	if zzverif.Bool("recycled") {
+		// the consumer handed an earlier sequence back (Finish): the parser's pools now hold
+		// used parameter slices, which must come back empty
+		p.params = append(p.params, []rune("11;22:7;33;44")...)
+		p.collect('?')
+		p.csiDispatch('m')
+		for _, s := range verifDrain(p) {
+			p.Finish(s)
+		}
+		p.clear()
+	}
 	var ps []rune
 	for i := 0; i < n; i++ {
 		r := verifClassByte("pb", 0x30, 0x3B, 0x30, 0x3B)
